@@ -62,7 +62,7 @@ POINTS = ['tmgr_sched', 'tmgr_stagein', 'agent_stagein', 'agent_sched',
 BULKS  = ['work:agent_stagein', 'work:agent_stageout', 'work:tmgr_stagein']
 FATES  = ['ok', 'ok', 'ok', 'exit', 'exit', 'signal', 'no_launcher',
           'unfittable',
-          'cancel_early', 'cancel_run', 'timeout', 'ok_staged',
+          'cancel_early', 'cancel_run', 'timeout', 'ok_staged', 'ok_staged',
           'missing_input', 'missing_output'] + \
          ['poison:' + p for p in POINTS] + BULKS
 
@@ -126,6 +126,13 @@ def describe(t, root):
         kw['output_staging'] = [{'source': 'task:///out.%s' % t['uid'],
                                  'target': 'client:///out.%s' % t['uid'],
                                  'action': rp.TRANSFER}]
+        if fate == 'ok_staged' and t.get('at', 0) >= 0.2:
+            # an agent-side directive with a relative (schema-less) source:
+            # resolved against this task's sandbox by the agent's stager
+            kw['output_staging'].append(
+                                {'source': 'out.%s' % t['uid'],
+                                 'target': 'pilot:///kept.%s' % t['uid'],
+                                 'action': rp.COPY})
     return make_td(**kw)
 
 
